@@ -771,6 +771,7 @@ type mfrag struct {
 
 type tokCase struct {
 	Want   *string  `json:"want"` // text cases: the formatted text a model predicts (drift only)
+	Shift  bool     `json:"shift"` // the token sequence is placed after two other lines (positions that are not on the first lines)
 	Toks   []string `json:"toks"`
 	FF     bool     `json:"ff"`
 	Result string   `json:"result"`
@@ -855,6 +856,10 @@ func bclToksDriver(raw json.RawMessage) *Out {
 		input = *c.Text
 	} else {
 		input = tokensToText(c.Toks)
+		if c.Shift {
+			input = "p = 1\n\n" + input
+			c.Text = &input // the model's predictions are for the unshifted text: laws only
+		}
 	}
 	out.Key = fmt.Sprintf("%v|%q", c.FF, input)
 	cls := c.Cls
